@@ -640,7 +640,7 @@ def replay(path):
         return check('quick', 1)
     wd = common.Workdir(PROP + 'r')
     try:
-        st = common.build(['theories/HandlersModel.vo'], [])
+        common.build(['theories/HandlersSpec.vo'], [])      # holds_C20 needs the specification only
         c = {'ft': obj['ft'], 'pos': obj['pos'], 'kind': obj.get('corruption', 'replay'),
              'bad': obj['bad_hex'], 'good': obj['good_hex']}
         item = dict(c, dir=wd.file('impl'), name='c20_replay', attrs=attrs_to_record())
